@@ -186,7 +186,10 @@ def generate(tape, tier="quick"):
     for ci, c in enumerate(sc["components"]):
         if c["kind"] == "pull" and "impl" not in c:
             outl = [l for l in sc["links"] if l["src"][0] == ci]
-            if outl and not any(a["kind"].startswith("delay") for l in outl for a in l["chain"]) and tape.chance(3, 4):
+            # (one output only: finam insists that all outputs of a component end up with the same starting time, and
+            # two outputs with unset times would take theirs from consumers that may start at different times)
+            if outl and len(c["outputs"]) == 1 and \
+                    not any(a["kind"].startswith("delay") for l in outl for a in l["chain"]) and tape.chance(3, 4):
                 c["out_time"] = "unset"
     return sc
 
@@ -240,6 +243,11 @@ def execute(sc):
     viol = [v for v in r["violations"] if v["oracle"] in OWN_P]
     n = provider_oracles(sc, r, viol)
     fam = sc.get("family", "P")
+    if fam == "P" and obs["status"] == "exc" and not any(x["oracle"].startswith("update-raises") for x in r["violations"]):
+        # the driver itself gave up on a valid composition with static slots / pull-based components (not a failing
+        # pull inside an update, which the C01 monitor reports)
+        viol.append({"oracle": "run-raises", "kind": obs["exc"], "comp": "",
+                     "msg": f"connect()/run() of a valid composition raised {obs['exc']}: {obs['exc_msg']}"})
     if fam == "W":
         if obs["status"] != "ok":
             comp = ctx = ""
